@@ -5,6 +5,7 @@ with the compression function generated from src/portable.rs (`genK`), for every
 -/
 import B3.Proofs.Final
 import B3.Proofs.GenK
+import B3.Proofs.Regions
 namespace B3.Props.C02
 open B3 B3.Rs
 
@@ -171,5 +172,25 @@ theorem update_split_independent (sd j : Nat) (hsd : sd = 2 ^ j) (mode : Spec.Mo
 /-- non-vacuity: a concrete history -/
 example : (run 4 [Op.new .hash, Op.clone 0, Op.reset 1]).length = 2 := by
   simp [run, step]
+
+/-- **Subtree sizing, tied to the source.** The arithmetic with which `update_with_join` chooses how
+many bytes to hash next (`largest_power_of_two_leq(input.len())`, `count_so_far`, the `while`
+shrink loop) is regenerated from src/lib.rs on every run in checked u64 arithmetic
+(`Gen.Rs.update_subtree_len`). For every input length below 2^63 and every chunk counter whose byte
+count fits in 64 bits it never overflows, never runs out of its 64 iterations, and returns exactly the
+`shrink (lp2le n) (cc * 1024)` that the model's loop (`Hs.loop`, hence `history_correct`) uses. -/
+theorem update_subtree_len_is_model (n cc : Nat) (h1 : 0 < n) (h2 : n < 2 ^ 63) (h3 : cc * 1024 < 2 ^ 64) :
+    Gen.Rs.update_subtree_len n cc = .ok (Ar.shrink (Ar.lp2le n) (cc * 2 ^ 10)) :=
+  Proofs.rs_update_subtree_len_eq n cc h1 h2 h3
+
+/-- what that value is: a power-of-two number of chunks, no longer than the input, dividing the
+number of chunks absorbed so far (which is what keeps the CV stack's binary-counter invariant) -/
+theorem update_subtree_len_spec (n cc : Nat) (hn : 1024 < n) (h2 : n < 2 ^ 63) (h3 : cc * 1024 < 2 ^ 64) :
+    ∃ k, Gen.Rs.update_subtree_len n cc = .ok (2 ^ k * 1024) ∧ 2 ^ k * 1024 ≤ n ∧ 2 ^ k ∣ cc := by
+  obtain ⟨k, e1, e2, e3⟩ := Hs.subtree_len_spec 10 cc n (by simpa using hn)
+  refine ⟨k, ?_, by simpa using e2, e3⟩
+  rw [update_subtree_len_is_model n cc (by omega) h2 h3, e1]
+
+example : Gen.Rs.update_subtree_len 5000 3 = .ok 1024 ∧ Gen.Rs.update_subtree_len 5000 4 = .ok 4096 := by decide
 
 end B3.Props.C02
